@@ -1009,40 +1009,135 @@ func (w *c33World) nonFence(kind, label string, t presence.RouteTarget) {
 	w.checkState("nonfence-" + kind)
 }
 
-func (w *c33World) opCommitAbort(commit bool) {
-	var prefer []uint16
-	for _, h := range c33HashSlots {
-		if s := w.slots[h]; s != nil && len(s.pending) > 0 {
-			prefer = append(prefer, h)
-			break
+// c33Tok is one commit/abort subject: a live candidate of the model, or a
+// token the model considers dead.
+type c33Tok struct {
+	p    *c33Pending
+	toks [2]presence.PendingRouteToken
+	kind string // live | dead | purged | prev-incarnation | bogus
+}
+
+// collides reports whether a dead token string names a live candidate of s
+// (token counters restart with every authority incarnation).
+func (s *c33Slot) collides(toks [2]presence.PendingRouteToken) bool {
+	for _, q := range s.pending {
+		if q.tokens[0] == toks[0] || q.tokens[1] == toks[1] {
+			return true
 		}
 	}
-	t, label := w.pickTarget(prefer...)
-	s := w.valid(t)
-	kind := "abort"
-	if commit {
-		kind = "commit"
+	return false
+}
+
+func (w *c33World) pickTok(src *c33Slot, h uint16) c33Tok {
+	bogus := func() c33Tok {
+		b := presence.PendingRouteToken([]string{"", "999", "0"}[w.rng.IntN(3)])
+		return c33Tok{toks: [2]presence.PendingRouteToken{b, b}, kind: "bogus"}
 	}
-	var p *c33Pending
-	// take a pending candidate from the addressed slot, else from any slot
+	if src == nil {
+		return bogus()
+	}
+	x := w.rng.IntN(100)
+	switch {
+	case x < 55 && len(src.pending) > 0:
+		p := src.pending[w.rng.IntN(len(src.pending))]
+		return c33Tok{p: p, toks: p.tokens, kind: "live"}
+	case x < 82 && len(src.dead) > 0:
+		// newest dead tokens first: they are the ones an unregister just purged
+		n := len(src.dead)
+		i := n - 1 - w.rng.IntN(min(n, 4))
+		t := src.dead[i]
+		k := "dead"
+		if src.purged[t[0]] {
+			k = "purged"
+		}
+		return c33Tok{toks: t, kind: k}
+	case x < 90 && len(w.deadPrev[h]) > 0:
+		t := w.deadPrev[h][w.rng.IntN(len(w.deadPrev[h]))]
+		if !src.collides(t) {
+			return c33Tok{toks: t, kind: "prev-incarnation"}
+		}
+	case len(src.pending) > 0 && x < 95:
+		p := src.pending[w.rng.IntN(len(src.pending))]
+		return c33Tok{p: p, toks: p.tokens, kind: "live"}
+	}
+	return bogus()
+}
+
+func (w *c33World) opCommitAbort(commit bool) {
+	t, label := w.pickTarget(w.slotWithPending()...)
+	s := w.valid(t)
 	src := s
 	if src == nil {
 		src = w.slots[t.HashSlot]
 	}
-	if src != nil && len(src.pending) > 0 && w.rng.IntN(6) != 0 {
-		p = src.pending[w.rng.IntN(len(src.pending))]
-	}
-	tok := func(di int) presence.PendingRouteToken {
-		if p != nil {
-			return p.tokens[di]
+	w.commitAbortToken(commit, t, label, s, w.pickTok(src, t.HashSlot))
+}
+
+// opDrain commits/aborts EVERY outstanding token of one slot — live candidates
+// and the tokens the model dropped — in PRNG order.
+func (w *c33World) opDrain() {
+	hs := w.slotWithPending()
+	if hs == nil {
+		for _, h := range c33HashSlots {
+			if s := w.slots[h]; s != nil && len(s.dead) > 0 {
+				hs = []uint16{h}
+				break
+			}
 		}
-		return presence.PendingRouteToken([]string{"", "999", "0"}[w.rng.IntN(3)])
 	}
-	toks := [2]presence.PendingRouteToken{tok(0), tok(1)}
-	if p == nil {
-		toks[1] = toks[0]
+	if hs == nil {
+		w.opCommitAbort(true)
+		return
 	}
-	w.logf("%s %s %s token=%q", kind, c33TgtStr(t), label, toks[0])
+	h := hs[0]
+	s := w.slots[h]
+	var items []c33Tok
+	for _, p := range s.pending {
+		items = append(items, c33Tok{p: p, toks: p.tokens, kind: "live"})
+	}
+	nd := len(s.dead)
+	for i := nd - 1; i >= 0 && i >= nd-5; i-- {
+		k := "dead"
+		if s.purged[s.dead[i][0]] {
+			k = "purged"
+		}
+		items = append(items, c33Tok{toks: s.dead[i], kind: k})
+	}
+	for _, t := range w.deadPrev[h] {
+		if len(items) < 10 && !s.collides(t) && w.rng.IntN(3) == 0 {
+			items = append(items, c33Tok{toks: t, kind: "prev-incarnation"})
+		}
+	}
+	w.rng.Shuffle(len(items), func(i, j int) { items[i], items[j] = items[j], items[i] })
+	w.r.Count("drain.calls", 1)
+	w.r.Max("max_drain_tokens", len(items))
+	for _, it := range items {
+		if w.failed || w.slots[h] != s {
+			return
+		}
+		if it.kind == "live" {
+			// an earlier commit of this drain may have superseded/dropped it
+			alive := false
+			for _, q := range s.pending {
+				if q == it.p {
+					alive = true
+				}
+			}
+			if !alive {
+				it = c33Tok{toks: it.toks, kind: "dead"}
+			}
+		}
+		w.commitAbortToken(w.rng.IntN(10) < 7, s.target, "current", s, it)
+	}
+}
+
+func (w *c33World) commitAbortToken(commit bool, t presence.RouteTarget, label string, s *c33Slot, tk c33Tok) {
+	kind := "abort"
+	if commit {
+		kind = "commit"
+	}
+	toks := tk.toks
+	w.logf("%s %s %s token=%q (%s)", kind, c33TgtStr(t), label, toks[0], tk.kind)
 	call := func(d *presence.Directory) error {
 		if commit {
 			return d.CommitRoute(t, toks[w.cur])
@@ -1054,27 +1149,62 @@ func (w *c33World) opCommitAbort(commit bool) {
 		return
 	}
 	errs, same := w.errBoth(call)
-	if !same {
+	if !same && tk.p != nil {
 		w.fail("directories-diverge:"+kind, map[string]any{"err0": fmt.Sprint(errs[0]), "err1": fmt.Sprint(errs[1])})
 		return
 	}
-	if c33Class(errs[0]) == c33NotLeader {
+	got := c33Class(errs[0])
+	if got == c33NotLeader || c33Class(errs[1]) == c33NotLeader {
+		if !same {
+			w.fail("directories-diverge:"+kind, map[string]any{"err0": fmt.Sprint(errs[0]), "err1": fmt.Sprint(errs[1])})
+			return
+		}
 		w.nonFence(kind, label, t)
 		return
 	}
-	want := c33NotReady
-	if p != nil {
-		if commit {
-			want = s.commit(p)
-			if want == c33OK {
-				w.committed++
-			}
-		} else {
-			s.dropPending(p)
-			want = c33OK
+	if tk.p == nil {
+		if !same {
+			// Only for tokens the model does not know: the statement does not
+			// govern what a leftover candidate answers, only that nothing
+			// becomes visible; each answer is judged on its own below.
+			w.r.Count(kind+".dead_token_answers_differ_between_directories", 1)
 		}
+		// A token the model does not know. Whatever the directory answers,
+		// nothing may become visible: the state comparison and the tombstone
+		// tracker decide first (clause 2 covers routes promoted by CommitRoute).
+		if tk.kind == "purged" {
+			w.purgedTokenTried++
+		}
+		w.r.Count(kind+"."+tk.kind+"_token."+got.String(), 1)
+		w.shape.WriteString(kind[:1] + "d")
+		w.checkState(kind)
+		if w.failed {
+			return
+		}
+		// The documented answer is ErrRouteNotReady; ErrStaleRoute (commit) or a
+		// silent drop (abort) of a leftover candidate are also harmless. A
+		// successful commit that changed nothing observable is still wrong.
+		for di := range errs {
+			g := c33Class(errs[di])
+			ok := g == c33NotReady || (commit && g == c33Stale) || (!commit && g == c33OK && tk.kind != "bogus")
+			if !ok {
+				w.fail("model-mismatch:"+kind+"-of-dead-token-"+g.String(), map[string]any{"dir": di, "token": string(toks[di]), "token_kind": tk.kind})
+				return
+			}
+		}
+		return
 	}
-	if c33Class(errs[0]) != want {
+	var want c33Err
+	if commit {
+		want = s.commit(tk.p)
+		if want == c33OK {
+			w.committed++
+		}
+	} else {
+		s.dropPending(tk.p)
+		want = c33OK
+	}
+	if got != want {
 		w.fail("model-mismatch:"+kind+"-error", map[string]any{"got": fmt.Sprint(errs[0]), "want": want.String()})
 		return
 	}
@@ -1088,7 +1218,11 @@ func (w *c33World) opCommitAbort(commit bool) {
 }
 
 func (w *c33World) opUnregister() {
-	t, label := w.pickTarget()
+	var prefer []uint16
+	if w.rng.IntN(3) == 0 {
+		prefer = w.slotWithPending()
+	}
+	t, label := w.pickTarget(prefer...)
 	s := w.valid(t)
 	src := s
 	if src == nil {
@@ -1097,8 +1231,13 @@ func (w *c33World) opUnregister() {
 	var id presence.RouteIdentity
 	var seq uint64
 	picked := false
+	fromPending := false
 	if src != nil {
-		switch y := w.rng.IntN(10); {
+		y := w.rng.IntN(10)
+		if prefer != nil && len(src.pending) > 0 {
+			y = 6 // aim at an outstanding candidate (one of possibly several per identity)
+		}
+		switch {
 		case y < 6 && len(src.active) > 0:
 			rs := make([]presence.Route, 0, len(src.active))
 			for _, r := range src.active {
@@ -1109,14 +1248,18 @@ func (w *c33World) opUnregister() {
 			id, seq, picked = r.Identity(), r.OwnerSeq, true
 		case y < 8 && len(src.pending) > 0:
 			r := src.pending[w.rng.IntN(len(src.pending))].route
-			id, seq, picked = r.Identity(), r.OwnerSeq, true
+			id, seq, picked, fromPending = r.Identity(), r.OwnerSeq, true, true
 		}
 	}
 	if !picked {
 		r := w.genRoute()
 		id, seq = r.Identity(), r.OwnerSeq
 	}
-	switch w.rng.IntN(6) {
+	vary := 6
+	if fromPending {
+		vary = 4 // below / equal / above the chosen candidate's OwnerSeq
+	}
+	switch w.rng.IntN(vary) {
 	case 0:
 		seq++
 	case 1:
@@ -1148,7 +1291,21 @@ func (w *c33World) opUnregister() {
 		return
 	}
 	_, wasActive := s.active[id]
+	nPend := len(s.pending)
 	s.unregister(id, seq)
+	purged := nPend - len(s.pending)
+	if purged > 0 {
+		w.r.Count("unregister.purged_pending", purged)
+		if purged >= 2 {
+			w.r.Count("unregister.purged_several_candidates", 1)
+		}
+		for _, q := range s.pending {
+			if q.route.Identity() == id {
+				w.r.Count("unregister.candidate_above_seq_survives", 1)
+				break
+			}
+		}
+	}
 	// statement-level tracker (independent of the model's own tombstones)
 	if w.tomb[t.HashSlot] == nil {
 		w.tomb[t.HashSlot] = map[presence.RouteIdentity]uint64{}
@@ -1172,6 +1329,18 @@ func (w *c33World) opUnregister() {
 		w.shape.WriteString("t")
 	}
 	w.checkState("unregister")
+	// an owner that unregisters while conflict resolution is still in flight:
+	// the completion callbacks of every purged candidate arrive afterwards
+	if purged > 0 && w.rng.IntN(2) == 0 {
+		toks := append([][2]presence.PendingRouteToken(nil), s.dead[len(s.dead)-purged:]...)
+		w.rng.Shuffle(len(toks), func(i, j int) { toks[i], toks[j] = toks[j], toks[i] })
+		for _, tk := range toks {
+			if w.failed || w.slots[t.HashSlot] != s {
+				return
+			}
+			w.commitAbortToken(w.rng.IntN(10) < 8, s.target, "current", s, c33Tok{toks: tk, kind: "purged"})
+		}
+	}
 }
 
 func (w *c33World) opTouch() {
@@ -1406,9 +1575,9 @@ func (w *c33World) opLookup() {
 func TestVerifC33(t *testing.T) {
 	r := verifkit.Start(t, "C33", "main")
 	defer r.Finish()
-	r.SetRule("Each case is one PRNG history of 50 (thorough 90) operations — become/lose authority (fresh identity, revision-only, older term), register (fresh, conflicting, tombstone replays), commit/abort (live and bogus tokens), unregister, touch batches (refresh, delayed, recreate, tombstone replays), expire on a logical clock, grouped lookups — each addressed with the current target (68%) or a stale variant (one fence field off, previous incarnation, uninstalled hash slot) — applied to two directories with different shard counts and to a reference model; full state compared after every operation. Non-trivial = history in which a stale-target operation was rejected while routes were active AND at least one of: a tombstone fenced a register/touch, an expiry removed a proper non-empty subset, a pending route was committed. Distinct = op/outcome shape string of the history.")
+	r.SetRule("Each case is one PRNG history of 50 (thorough 90) operations — become/lose authority (fresh identity, revision-only, older term), register (fresh, conflicting, tombstone replays), retried registers of an outstanding conflict candidate (several pending tokens per identity, same/newer/older OwnerSeq), commit/abort of live, dead (committed/aborted/superseded/unregister-purged/previous-incarnation) and bogus tokens incl. drains of every outstanding token in PRNG order, unregister (at/below/above a candidate's OwnerSeq), touch batches (refresh, delayed, recreate, tombstone replays), expire on a logical clock, grouped lookups — each addressed with the current target (68%) or a stale variant (one fence field off, previous incarnation, uninstalled hash slot) — applied to two directories with different shard counts and to a reference model; full state compared after every operation. Non-trivial = history in which a stale-target operation was rejected while routes were active AND at least one of: a tombstone fenced a register/touch, an expiry removed a proper non-empty subset, a pending route was committed, a token purged by an unregister was committed/aborted. Distinct = op/outcome shape string of the history.")
 	r.Assume("OwnerSeq >= 1 (0 is 'unset' in production); route activity times are non-zero; tombstone clause is scoped to one authority incarnation (BecomeAuthority with a new identity and LoseAuthority clear the slot by documented design); RouteRevision/AuthorityEpoch are not fences")
-	nHist := r.N(6000, 150000)
+	nHist := r.N(20000, 400000)
 	nOps := r.N(50, 90)
 	for i := 0; i < nHist; i++ {
 		if r.Skip(i) {
@@ -1445,7 +1614,10 @@ func TestVerifC33(t *testing.T) {
 		if w.multiRoute > 0 {
 			r.Count("histories_with_multi_route_uid", 1)
 		}
-		if w.staleRejectedNonEmpty > 0 && (w.tombFenced > 0 || w.properExpiry > 0 || w.committed > 0) {
+		if w.purgedTokenTried > 0 {
+			r.Count("histories_with_purged_token_commit_or_abort", 1)
+		}
+		if w.staleRejectedNonEmpty > 0 && (w.tombFenced > 0 || w.properExpiry > 0 || w.committed > 0 || w.purgedTokenTried > 0) {
 			r.Nontrivial(w.shape.String())
 		}
 		if r.WantSample() && w.tombFenced > 0 && w.properExpiry > 0 && w.committed > 0 {
